@@ -27,6 +27,7 @@ func C17_caller_bytes() {
 	// flags that come with negotiated extensions
 	st := ws.StateClientSide | []ws.State{0, ws.StateExtended, ws.StateFragmented | ws.StateExtended}[vChoose("stateflags", 3)]
 	api := vChoose("api", 6)
+	pre := 0
 	var ckey [4]byte
 	switch api {
 	case 0:
@@ -47,16 +48,19 @@ func C17_caller_bytes() {
 	case 3:
 		ckey = [4]byte{vU8("k0"), vU8("k1"), vU8("k2"), vU8("k3")}
 		cw := NewCipherWriter(dst, ckey)
+		// (the writer is in mid-stream: 0..3 bytes went through it before the caller's slice)
+		pre = vChoose("earlier", 4)
+		cw.Write(make([]byte, pre))
 		cw.Write(p)
 	}
 	vAssert(vEqBytes(p, keep), "caller.bytes_intact")
 	// what reached the destination is the caller's data (other goroutines recycle the pools during
 	// every destination write: a buffer released too early does not survive that)
 	if api == 3 {
-		ok := len(dst.all) == n
+		ok := len(dst.all) == pre+n
 		for i := 0; ok && i < n; i++ {
 			if n <= 130 || i == 0 || i >= n-2 {
-				ok = vConcrete(vIte(dst.all[i]^ckey[i%4] == keep[i], 1, 0)) == 1
+				ok = vConcrete(vIte(dst.all[pre+i]^ckey[(pre+i)%4] == keep[i], 1, 0)) == 1
 			}
 		}
 		vAssert(ok, "caller.destination_got_the_data")
